@@ -9,6 +9,7 @@ import (
 	"net"
 	"sort"
 	"sync"
+	"sync/atomic"
 	"time"
 
 	apicommon "github.com/enfein/mieru/v3/apis/common"
@@ -282,7 +283,13 @@ func socksUDPHeader(ip net.IP, port int) []byte {
 // stubResolver maps the test domain to loopback.
 type stubResolver struct{}
 
+var stubLookups atomic.Int64
+
 func (stubResolver) LookupIP(ctx context.Context, network, host string) ([]net.IP, error) {
+	// a cold cache: the first look-ups take longer than the later ones
+	if n := stubLookups.Add(1); n%7 == 1 || n%7 == 2 {
+		time.Sleep(25 * time.Millisecond)
+	}
 	if host == c18Domain {
 		return []net.IP{net.IPv4(127, 0, 0, 1)}, nil
 	}
@@ -469,6 +476,22 @@ func c18RelayCase(c *Ctx) *Result {
 			}
 			if sig == "" && len(got) < len(want) {
 				res.Obs["kernel_shortfall"] += float64(len(want) - len(got))
+			}
+			// order within the tunnel: the relay sends from one socket to one socket on loopback,
+			// which keeps the order; the ids of what a destination received must increase
+			if sig == "" {
+				last := -1
+				for _, g := range got {
+					if len(g) >= 12 {
+						id := int(binary.BigEndian.Uint32(g[4:]))
+						if id < last {
+							sig, detail = "datagrams-reordered-by-the-relay", fmt.Sprintf("destination %c received datagram %d after datagram %d (addressed by name: %v)", d.tag, id, last, byName[di])
+							break
+						}
+						last = id
+					}
+				}
+				res.Obs["order_checked_destinations"]++
 			}
 		}
 	}
